@@ -83,6 +83,30 @@ def gen(rng, tier):
                 cutsets.append(jsongen.partitions(rng, n, rng.choice([3, 4])))
         for cuts in cutsets:
             out.append(mk(depth, fl, t, cuts, kind))
+    # long tokens (numbers, strings, literals runs, comments of 1000..5000 bytes): limits that look only at the part
+    # scanned in the current call show up when no single call sees the whole token
+    nlong = 24 if tier == "quick" else 400
+    for i in range(nlong):
+        ln = rng.choice([1000, 1023, 1024, 1025, 1500, 2047, 2048, 2049, 3000, 5000])
+        kindl = rng.choice(["int", "frac", "exp", "str", "comment", "ws"])
+        if kindl == "int":
+            tok_ = bytes(rng.choice(b"123456789") for _ in range(1)) + bytes(rng.choice(b"0123456789") for _ in range(ln - 1))
+        elif kindl == "frac":
+            tok_ = b"0." + bytes(rng.choice(b"0123456789") for _ in range(ln))
+        elif kindl == "exp":
+            tok_ = b"1" + b"0" * ln + b"e-" + str(ln).encode()
+        elif kindl == "str":
+            tok_ = b'"' + bytes(rng.choice(b"abc \u00e9xyz") if False else rng.choice(b"abcxyz 0123") for _ in range(ln)) + b'"'
+        elif kindl == "comment":
+            tok_ = b"/*" + b"c" * ln + b"*/ 1"
+        else:
+            tok_ = b" " * ln + b"1"
+        t = rng.choice([b"[", b'{"k":', b""]) + tok_
+        t += {b"[": b"]", b'{': b"}"}.get(t[:1], b" ")
+        fl = rng.choice([0, STRICT]) if kindl != "comment" else 0
+        n = len(t)
+        for cuts in ([n // 2], [n // 3, 2 * n // 3], sorted(set(rng.randrange(1, n) for _ in range(4))), [1000] if n > 1001 else [n // 2]):
+            out.append(mk(32, fl, t, cuts, "long-" + kindl))
     # streams of concatenated documents, resumed at the reported end position, whole vs chunked
     nst = 250 if tier == "quick" else 6000
     for i in range(nst):
